@@ -127,7 +127,7 @@ class H2Peer:
 
     def can_send(self, sid) -> bool:
         s = self.conn.streams.get(sid)
-        if s is None or self.conn_error or self.terminated:
+        if s is None or self.dead:
             return False
         import h2.stream as hs
 
@@ -158,12 +158,19 @@ class H2Peer:
         self.conn.update_settings(values)
         return self.conn.data_to_send()
 
+    @property
+    def dead(self) -> bool:
+        """the connection is over at this endpoint (protocol error seen here, or GOAWAY received)"""
+        return bool(self.conn_error or self.terminated) or self.conn.state_machine.state is h2.connection.ConnectionState.CLOSED
+
     def release(self, sid, n=None) -> bytes:
         """grant flow-control window for what was received on `sid` (stream and connection level)"""
         k = self.unacked.get(sid, 0) if n is None else n
         if k <= 0:
             return b""
         self.unacked[sid] = self.unacked.get(sid, 0) - k
+        if self.dead:
+            return b""
         self.conn.increment_flow_control_window(k)
         s = self.conn.streams.get(sid)
         if s is not None and not s.closed:
